@@ -112,6 +112,7 @@ class NameScenario(explore.Scenario):
         w.names = names
         w.model = Model(k, names)
         w.uniq = [p.name for p in w.peers]
+        w.has_rule = set()
         return w
 
     def enabled(self, w):
@@ -125,6 +126,10 @@ class NameScenario(explore.Scenario):
                     evs.append(('req', c, n, f))
                 evs.append(('rel', c, n))
             evs.append(('disc', c))
+            if self.params.get('rules'):
+                # the same connections also add and remove a match rule
+                evs.append(('rmmatch', c) if c in w.has_rule
+                           else ('addmatch', c))
         return evs
 
     # -- helpers -----------------------------------------------------------
@@ -185,6 +190,24 @@ class NameScenario(explore.Scenario):
                 for n, acq in m.disconnect(c):
                     acquired.append((acq, n))
                 w.peers[c].disconnect()
+                w.has_rule.discard(c)
+            elif kind in ('addmatch', 'rmmatch'):
+                _, c = ev
+                s_ = w.peers[c].call_bus(
+                    'AddMatch' if kind == 'addmatch' else 'RemoveMatch', 's',
+                    ["type='signal',interface='a.b'"])
+                if kind == 'addmatch':
+                    w.has_rule.add(c)
+                else:
+                    w.has_rule.discard(c)
+                got, bad = self._drain(w)
+                rs = self._reply_of(got[c], s_)
+                if len(rs) != 1 or rs[0]['type'] != 2:
+                    bad.append(('%s/%s' % (PROP, kind),
+                                '%s answered %r' % (kind, [_brief(r)
+                                                           for r in rs])))
+                return bad + self._lookups(w, before, ev, None,
+                                           'rules', None)
         except Exception as e:
             return [('%s/%s/raises-%s' % (PROP, kind, type(e).__name__),
                      'event %r in state %r raised %r' % (ev, before, e))]
@@ -285,7 +308,7 @@ class NameScenario(explore.Scenario):
         impl = explore.impl_digest(w.bw.bus, [p.proto for p in w.peers],
                                    ignore=('uuid', 'transport', 'factory',
                                            '_endian'))
-        return (w.model.key(), impl)
+        return (w.model.key(), tuple(sorted(w.has_rule)), impl)
 
     def nontrivial(self, hist):
         return len({e[1] for e in hist}) > 1
@@ -467,6 +490,11 @@ def run(ctx):
         explore.explore(ctx, NameScenario, {'clients': 4, 'names': 1},
                         max_depth=60, label='4 clients, 1 name')
         explore.explore(ctx, NameScenario,
+                        {'clients': 3, 'names': 1, 'rules': True,
+                         'flags': [0, 3, 4]}, max_depth=5,
+                        label='3 clients that also add / remove a match '
+                              'rule, depth 5')
+        explore.explore(ctx, NameScenario,
                         {'clients': 3, 'names': 1, 'nohello': (1,),
                          'flags': [0, 1, 3, 4]},
                         max_depth=40,
@@ -480,6 +508,11 @@ def run(ctx):
         explore.explore(ctx, NameScenario, {'clients': 4, 'names': 1},
                         max_depth=60, label='4 clients, 1 name',
                         max_states=400000)
+        explore.explore(ctx, NameScenario,
+                        {'clients': 3, 'names': 1, 'rules': True,
+                         'flags': [0, 1, 3, 4]}, max_depth=7,
+                        label='3 clients that also add / remove a match '
+                              'rule, depth 7', max_states=300000)
         explore.explore(ctx, NameScenario,
                         {'clients': 3, 'names': 1, 'nohello': (1,)},
                         max_depth=60,
